@@ -144,9 +144,21 @@ def with_wavenumbers_cfg(M: int, dealiasing='quadratic', **kw) -> dict:
 
 
 # ------------------------------------------------------------------------------------ layouts
+def independent_mask(grid) -> np.ndarray:
+  """Degrees of freedom of the modal layout, computed from the DOCUMENTED layouts (Real rows
+  [0,+1,-1,...], Fast rows [0,(0),+1,-1,...,padding]; |m| <= l < total_wavenumbers), not from
+  `grid.mask`: workloads must not inherit a defect of the mask under test."""
+  ms = tuple(grid.modal_shape)
+  Mw, Lw = grid.longitude_wavenumbers, grid.total_wavenumbers
+  i, j = np.meshgrid(np.arange(ms[0]), np.arange(ms[1]), indexing='ij')
+  if is_fast(grid):
+    return (i < 2 * Mw) & (j < Lw) & (i != 1) & ((i // 2) <= j)
+  return (((i + 1) // 2) <= j) & (j < Lw) & (i < 2 * Mw - 1)
+
+
 def basis_indices(grid) -> list[tuple[int, int]]:
   """(i, j) positions of all unmasked coefficients of a grid."""
-  mask = np.asarray(grid.mask)
+  mask = independent_mask(grid)
   ii, jj = np.nonzero(mask)
   return list(zip(ii.tolist(), jj.tolist()))
 
@@ -213,8 +225,9 @@ def make_sigma(boundaries):
 def rand_modal(rng, grid, lead=(), lmax=None, amp=1.0, decay=0.0, zero_mean=False,
                dtype=np.float64, lmin=0):
   """Random coefficients on the unmasked entries with l in [lmin, lmax]; spectrum ~ (1+l)^-decay."""
-  m, l = grid.modal_mesh
-  mask = np.asarray(grid.mask)
+  ms = tuple(grid.modal_shape)
+  l = np.broadcast_to(np.arange(ms[1])[None, :], ms)
+  mask = independent_mask(grid)
   if lmax is None:
     lmax = grid.total_wavenumbers - 1
   sel = mask & (l <= lmax) & (l >= lmin)
